@@ -197,6 +197,61 @@ fn validate(n: usize, edges: &[(usize, usize)], t: &TreeDump) -> Option<(String,
     None
 }
 
+/// Is the pattern complete after symbolic elimination in the ordering the analysis uses?  The ordering is the
+/// permutation of a logical QDLDL factorisation of the pattern matrix (public API, the engine C12 checks); the
+/// elimination game itself is the harness's own.
+fn filled_pattern_is_complete(n: usize, edges: &[(usize, usize)]) -> Option<bool> {
+    let (mut rows, mut cols) = (vec![], vec![]);
+    for j in 0..n {
+        rows.push(j);
+        cols.push(j);
+    }
+    for &(i, j) in edges {
+        rows.push(i.min(j));
+        cols.push(i.max(j));
+    }
+    let vals = vec![1f64; rows.len()];
+    let pattern = CscMatrix::new_from_triplets(n, n, rows, cols, vals);
+    let opts = clarabel::qdldl::QDLDLSettingsBuilder::default().logical(true).build().ok()?;
+    let f = clarabel::qdldl::QDLDLFactorisation::<f64>::new(&pattern, Some(opts)).ok()?;
+    let perm = f.perm.clone();
+    let mut adj: Vec<BTreeSet<usize>> = vec![BTreeSet::new(); n];
+    for &(i, j) in edges {
+        adj[i].insert(j);
+        adj[j].insert(i);
+    }
+    let mut gone = vec![false; n];
+    for &v in &perm {
+        let nb: Vec<usize> = adj[v].iter().copied().filter(|u| !gone[*u]).collect();
+        for a in 0..nb.len() {
+            for b in a + 1..nb.len() {
+                adj[nb[a]].insert(nb[b]);
+                adj[nb[b]].insert(nb[a]);
+            }
+        }
+        gone[v] = true;
+    }
+    // the analysis then links disconnected parts: a column of the filled factor without any entry below its
+    // diagonal (other than the last one) receives the entry right below the diagonal
+    let mut pos = vec![0usize; n];
+    for (k, &v) in perm.iter().enumerate() {
+        pos[v] = k;
+    }
+    let mut links = vec![];
+    for j in 0..n.saturating_sub(1) {
+        let v = perm[j];
+        if !adj[v].iter().any(|u| pos[*u] > j) {
+            links.push((v, perm[j + 1]));
+        }
+    }
+    for (a, b) in links {
+        adj[a].insert(b);
+        adj[b].insert(a);
+    }
+    let total: usize = adj.iter().map(|s| s.len()).sum::<usize>() / 2;
+    Some(total == n * (n - 1) / 2)
+}
+
 fn run_graph(ctx: &mut Ctx, wl: &str, case: u64, n: usize, edges: &[(usize, usize)], family: &str, rng: &mut Rng) {
     let full = edges.len() == n * (n - 1) / 2;
     for merge in ["none", "parent_child", "clique_graph"] {
@@ -219,6 +274,13 @@ fn run_graph(ctx: &mut Ctx, wl: &str, case: u64, n: usize, edges: &[(usize, usiz
                     ctx.bump(&format!("undecomposed_{merge}"));
                     if full {
                         ctx.bump("undecomposed_dense");
+                    } else if merge == "none" {
+                        // nothing is merged: the pattern may stay undecomposed only if elimination fills it up
+                        match filled_pattern_is_complete(n, edges) {
+                            Some(false) => ctx.violation("undecomposed_though_filled_pattern_is_not_complete", "undecomposed_though_filled_pattern_is_not_complete:none", wl, case, json!({"input": inp()})),
+                            Some(true) => ctx.bump("undecomposed_none_because_fill_completes_the_pattern"),
+                            None => ctx.bump("undecomposed_none_not_judged"),
+                        }
                     }
                     continue;
                 }
